@@ -27,7 +27,7 @@ def default_master(tau):
 
 def planted_record(recessions=((2, 8), (0, 9), (4, 8)), storm_steps=2, sy=Fraction(1, 2),
                    master=default_master, step_s=3600, origin=1577836800, lead_dry=1,
-                   et_mm_h=Fraction(1, 8), et_cycle=None, tail_dry=0, drizzle_mm_h=Fraction(1, 4)):
+                   et_mm_h=Fraction(1, 8), et_cycle=None, tail_dry=0, drizzle_mm_h=Fraction(1, 4), final_jump=None):
     """Build a record.  recessions: sequence of (a_i, n_i) in lattice steps.
 
     Returns dict with epochs, rain (mm/h per step), et (mm/h per step), zeta (mm per
@@ -71,6 +71,12 @@ def planted_record(recessions=((2, 8), (0, 9), (4, 8)), storm_steps=2, sy=Fracti
     for _ in range(tail_dry):
         zeta.append(level)
         rain.append(Fraction(0))
+    if final_jump is not None:
+        # a rise without rain up to a new maximum of the record (an "unexplained" jump)
+        top = max(zeta) + Fraction(final_jump)
+        for _ in range(2):
+            zeta.append(top)
+            rain.append(Fraction(0))
     # one rain/ET value per step; one more level instant than steps is not needed:
     # spowtd's grid is the rain epochs within the level record plus a closing instant
     nsteps = len(rain)
